@@ -181,6 +181,29 @@ func c04Templates() []c04Tmpl {
 			body: func(o []Expr) []Stmt {
 				return []Stmt{If{Cond: o[0], Then: []Stmt{mark("then")}, Elifs: []ElseIf{{Cond: o[1], Body: []Stmt{mark("elif1")}}}}}
 			}},
+		// an if nested as the only statement of an else block is NOT part of the chain: its condition is
+		// evaluated only when the else block runs
+		c04Tmpl{name: "else-contains-if-taken-first", types: []string{"bool", "bool"}, plain: []Expr{BoolLit{true}, BoolLit{true}},
+			body: func(o []Expr) []Stmt {
+				return []Stmt{If{Cond: o[0], Then: []Stmt{mark("then")}, HasElse: true, Else: []Stmt{If{Cond: o[1], Then: []Stmt{mark("inner-then")}, HasElse: true, Else: []Stmt{mark("inner-else")}}}}}
+			}},
+		c04Tmpl{name: "else-contains-if-taken-else", types: []string{"bool", "bool"}, plain: []Expr{BoolLit{false}, BoolLit{true}},
+			body: func(o []Expr) []Stmt {
+				return []Stmt{If{Cond: o[0], Then: []Stmt{mark("then")}, HasElse: true, Else: []Stmt{If{Cond: o[1], Then: []Stmt{mark("inner-then")}, HasElse: true, Else: []Stmt{mark("inner-else")}}}}}
+			}},
+		c04Tmpl{name: "else-contains-switch", types: []string{"bool", "int"}, plain: []Expr{BoolLit{true}, lit(2)},
+			body: func(o []Expr) []Stmt {
+				return []Stmt{If{Cond: o[0], Then: []Stmt{mark("then")}, HasElse: true, Else: []Stmt{Switch{Tag: lit(2), Cases: []Case{{Val: o[1], Body: []Stmt{mark("case")}}}}}}}
+			}},
+		// empty branch bodies: the conditions are evaluated all the same
+		c04Tmpl{name: "if-chain-empty-bodies", types: []string{"bool", "bool", "bool"}, plain: []Expr{BoolLit{false}, BoolLit{false}, BoolLit{true}},
+			body: func(o []Expr) []Stmt {
+				return []Stmt{If{Cond: o[0], Then: []Stmt{mark("then")}, Elifs: []ElseIf{{Cond: o[1]}, {Cond: o[2]}}}}
+			}},
+		c04Tmpl{name: "switch-empty-last-case", types: []string{"int", "int"}, plain: ints(1, 2),
+			body: func(o []Expr) []Stmt {
+				return []Stmt{Switch{Tag: lit(2), Cases: []Case{{Val: o[0], Body: []Stmt{mark("case1")}}, {Val: o[1]}}}}
+			}},
 		c04Tmpl{name: "switch-case-expressions", types: []string{"int", "int", "int"}, plain: ints(1, 2, 3),
 			body: func(o []Expr) []Stmt {
 				return []Stmt{Switch{Tag: lit(2), Cases: []Case{{Val: o[0], Body: []Stmt{mark("case1")}}, {Val: o[1], Body: []Stmt{mark("case2")}}, {Val: o[2], Body: []Stmt{mark("case3")}}, {Default: true, Body: []Stmt{mark("default")}}}}}
